@@ -17,6 +17,7 @@ func init() {
 			"R2 the quiescence predicate is sound for a release-then-recheck sender: it yields true only after observing len(writeQueue)==0 and, after that, Load(running)==idle (queue first, flag second; the flag alone admits the lost-packet schedule); " +
 			"R3 the sender writes/flushes/dequeues only while it owns the flag, so idle observed after an empty queue means the last batch was written and flushed (with C02-R4); " +
 			"R4 in the HTTP request loop the connection-close request is issued only after the request was delivered (response produced) in the same iteration. " +
+			"ALSO: every iteration of the bounded wait waits the poll interval; every Executor starts its action on every path; queue buffers are private and only read below the queue (imports listed in RULES.md). " +
 			"DOES NOT DECIDE: the length of the grace period, that the transport accepts the batch, Close racing with writes that had not returned.",
 		Assumptions: []string{"C02's rules hold (checked separately)", "no write is accepted after Close started (C11 entry checks)"},
 		Run:         runC06,
@@ -536,7 +537,7 @@ func runC06(c *core.Ctx) {
 				good[edgeKey{ifi.Block(), s}] = "iteration bound of the bounded-wait configuration"
 			}
 			c.Note("bounded wait: loop bound %s on channels created with untilWrite=false", cd.Y.String())
-				// the bound counts poll intervals: every trip round the loop really waits one (time.Sleep, or a receive
+			// the bound counts poll intervals: every trip round the loop really waits one (time.Sleep, or a receive
 			// from a timer channel alone); a select that another event can win makes the grace period shorter than documented
 			c.Instance("R1")
 			hdr := ifi.Block()
